@@ -206,7 +206,7 @@ func jsonOriginalString(s string) string {
 }
 
 // MarshalJSON keeps every byte of the identifier, the Vary value and the
-// resolved header values, also when they are not valid UTF-8.
+// resolved header names and values, also when they are not valid UTF-8.
 func (r ResponseRef) MarshalJSON() ([]byte, error) {
 	type plain ResponseRef
 	p := plain(r)
@@ -215,7 +215,7 @@ func (r ResponseRef) MarshalJSON() ([]byte, error) {
 	if r.VaryResolved != nil {
 		p.VaryResolved = make(map[string]string, len(r.VaryResolved))
 		for k, v := range r.VaryResolved {
-			p.VaryResolved[k] = jsonSafeString(v)
+			p.VaryResolved[jsonSafeString(k)] = jsonSafeString(v)
 		}
 	}
 	return json.Marshal(p)
@@ -229,8 +229,12 @@ func (r *ResponseRef) UnmarshalJSON(data []byte) error {
 	}
 	p.ResponseID = jsonOriginalString(p.ResponseID)
 	p.Vary = jsonOriginalString(p.Vary)
-	for k, v := range p.VaryResolved {
-		p.VaryResolved[k] = jsonOriginalString(v)
+	if p.VaryResolved != nil {
+		resolved := make(map[string]string, len(p.VaryResolved))
+		for k, v := range p.VaryResolved {
+			resolved[jsonOriginalString(k)] = jsonOriginalString(v)
+		}
+		p.VaryResolved = resolved
 	}
 	*r = ResponseRef(p)
 	return nil
